@@ -104,7 +104,8 @@ pub fn one_case(kind: &str, si: &gen::SchemaInfo, input: &J, out: &mut Out) {
     match kind {
         "trace" => trace_case(si, input.as_str().unwrap(), out),
         "svisit" => svisit_case(&si.name, &si.text, out),
-        "validate" => crate::valcases::validate_case(si, input.as_str().unwrap(), &tmpdir(), out),
+        "validate" | "purity" => crate::valcases::validate_case(si, input.as_str().unwrap(), &tmpdir(), out),
+        "c04" => crate::valcases::rules_case(si, input.as_str().unwrap(), &crate::valcases::RULES, &tmpdir(), out),
         "ext" => {
             let mut rng = Rng::new(crate::env_seed());
             crate::extcases::schema_cases(si, false, &mut rng, out);
@@ -176,6 +177,28 @@ pub fn generate(kind: &str, thorough: bool, seed: u64, corpus: &str, out: &mut O
                 let mut texts = corpus_docs(corpus, &si.name);
                 texts.extend(random_docs(si, &mut rng, 60 * scale, 4));
                 crate::purity::batch(si, &texts, &tmp, fork.as_deref(), out);
+            }
+        }
+        "c04" => {
+            let tmp = tmpdir();
+            let rules = ["FieldsOnCorrectType", "LeafFieldSelections"];
+            let si = gen::SchemaInfo::new("tiny", &format!("{}{}", schemas::PRELUDE, schemas::TINY));
+            out.schema(&si);
+            let budget = if thorough { 4 } else { 3 };
+            let bodies = crate::enumgen::selsets(&["a", "t", "u", "zz", "__typename", "__schema"], &["", "T", "I", "U", "Int", "Zed"], &["F"], budget, 3);
+            for (i, b) in bodies.iter().enumerate() {
+                let text = match i % 3 { 0 => format!("{} fragment F on T {{ a zz }}", b), 1 => format!("subscription {} fragment F on I {{ t }}", b), _ => format!("query Q {} fragment F on U {{ __typename a }}", b) };
+                crate::valcases::rules_case(&si, &text, &rules, &tmp, out);
+            }
+            for si in pool() {
+                out.schema(&si);
+                for t in corpus_docs(corpus, &si.name) { crate::valcases::rules_case(&si, &t, &rules, &tmp, out); }
+                for t in random_docs(&si, &mut rng, 150 * scale, 5) { crate::valcases::rules_case(&si, &t, &rules, &tmp, out); }
+            }
+            for i in 0..(6 * scale) {
+                let si = gen::SchemaInfo::new(&format!("random{}", i), &gen::random_schema(&mut rng));
+                out.schema(&si);
+                for t in random_docs(&si, &mut rng, 50, 5) { crate::valcases::rules_case(&si, &t, &rules, &tmp, out); }
             }
         }
         _ => panic!("unknown kind {}", kind),
